@@ -964,6 +964,21 @@ def enumerated_cases(tier):
                     "ops": [["arm_fault", "field_eom", "call", call],
                             ["compute", n], ["get"], ["compute", n]],
                     "enumerated": "fault"})
+    # the spectral density of a CustomSD bath is a user callable too; it is
+    # evaluated lazily inside the steps (full memory / add_correlation_time),
+    # many times per step: a transient failure at call numbers on a
+    # logarithmic grid, then the retry
+    grid = sorted({int(round(1.35 ** i)) for i in range(0, 28)})
+    for dkmax, act in ((None, None), (1, 0.25)):
+        sd_model = dict(CANONICAL["tempo"], bath_kind="customsd", zeta=1.0,
+                        dkmax=dkmax, act=act)
+        for call in (grid if tier != "quick" else grid[::2]):
+            out.append({"method": "tempo", "n": n, "model": sd_model,
+                        "ops": [["compute", 1],
+                                ["arm_fault", "spectral_density", "call",
+                                 call],
+                                ["compute", n], ["get"], ["compute", n]],
+                        "enumerated": "fault"})
     # restart of the chain at every step
     rmodel = dict(CANONICAL["pt_tebd"], controls=False)
     for k in range(n + 1):
